@@ -27,6 +27,49 @@ def bytes_to_human(n):
     return ('%g' % round(n / div, 2)) + unit
 
 
+class NightClock:
+    """the UTC clock of the code under test stepped through a night in which the LOCAL zone changes its offset (daylight saving):
+    snapshot times are UTC and must be ordered as such whatever the zone of the machine is"""
+
+    def __init__(self, tz, start, step_minutes=25):
+        import datetime as _dt
+        self.tz, self.t, self.step = tz, start, _dt.timedelta(minutes=step_minutes)
+
+    def __enter__(self):
+        import datetime as _dt
+        import time as _time
+        import replicat.repository as repo_mod
+        clock = self
+        real = repo_mod.datetime
+
+        class FakeDatetime(real):
+            @classmethod
+            def utcnow(cls):
+                clock.t += clock.step
+                return cls(*clock.t.timetuple()[:6], clock.t.microsecond)
+
+            @classmethod
+            def now(cls, tz=None):
+                u = cls.utcnow().replace(tzinfo=_dt.timezone.utc)
+                return u.astimezone(tz) if tz is not None else u.astimezone().replace(tzinfo=None)
+
+        self._real, self._old_tz = real, os.environ.get('TZ')
+        repo_mod.datetime = FakeDatetime
+        os.environ['TZ'] = self.tz
+        _time.tzset()
+        return self
+
+    def __exit__(self, *a):
+        import time as _time
+        import replicat.repository as repo_mod
+        repo_mod.datetime = self._real
+        if self._old_tz is None:
+            os.environ.pop('TZ', None)
+        else:
+            os.environ['TZ'] = self._old_tz
+        _time.tzset()
+
+
 async def run_history(root, rnd, scripted=False):
     problems = []
     src = root / 'src'
@@ -140,6 +183,22 @@ def main():
             if probs:
                 failures.append({'id': f'hist{h}', 'class': None, 'case': {'seed': seed, 'history': h}, 'detail': probs[:3]})
             samples.append({'seed': seed, 'history': h, 'filter_combinations': 25})
+    # the scripted history again, taken during the two nights of a year in which the machine's zone changes its offset (POSIX TZ rule,
+    # no tzdata needed): UTC stamps 25 minutes apart across the local gap (spring) and the local fold (autumn)
+    import datetime as _dt
+    for label, tz, start in (('spring-forward', 'CET-1CEST,M3.5.0,M10.5.0/3', _dt.datetime(2024, 3, 31, 1, 30, 0, 250000)),
+                             ('fall-back', 'CET-1CEST,M3.5.0,M10.5.0/3', _dt.datetime(2024, 10, 27, 0, 5, 0, 250000)),
+                             ('spring-forward-west', 'EST5EDT,M3.2.0,M11.1.0', _dt.datetime(2024, 3, 10, 1, 30, 0, 0))):
+        with lib.scratch('vf_c15_') as root:
+            cases += 1
+            try:
+                with NightClock(tz, start):
+                    probs = asyncio.run(run_history(root, random.Random(seed), scripted=True))
+            except Exception as e:
+                import traceback
+                probs = [{'problem': 'exception', 'error': f'{type(e).__name__}: {e}'[:200], 'tb': traceback.format_exc()[-500:]}]
+            if probs:
+                failures.append({'id': f'night-{label}', 'class': None, 'case': {'seed': seed, 'zone': tz, 'first_utc_stamp': str(start)}, 'detail': probs[:3]})
     lib.emit({'status': 'ok', 'cases': cases * 25, 'distinct': cases * 25, 'failures': failures[:10], 'samples': samples[:3],
               'exhaustive': False, 'reproduced': bool(failures)})
 
